@@ -173,6 +173,87 @@ def run_sliced(G, ex, st, ctx, slices):
     return cur
 
 
+def latency_window(case, slices):
+    """Does the listed idle-entry latency defect manifest in this history? A small simulation of the control structure of
+    Interpreter::Run for this program family on the concrete cells of the case (symbolic remainder cells never fire within
+    the budget): true iff timer 0 raises its interrupt in the *last* Tick of a loop iteration while the core is idle and the
+    same Run call continues - the next iteration then fast-forwards before sampling the latch."""
+    INF = 1 << 40
+    big = case['nmax'] + 1
+
+    def cell(v):
+        return v if v <= case['nmax'] else big + 1000
+    timers = [{'mode': case['mode'], 'counter': cell(case['counter']), 'start': cell(case['start']), 'routed': True}]
+    if case.get('t1'):
+        timers.append({'mode': 1, 'counter': case['t1'][0], 'start': case['t1'][1], 'routed': False})
+
+    def tick():
+        fired = False
+        for t in timers:
+            if t['counter'] == 0:
+                if t['mode'] == 1:
+                    t['counter'] = t['start']
+                elif t['mode'] == 2:
+                    t['counter'] = 0xFFFFFFFF
+            else:
+                t['counter'] -= 1
+                if t['counter'] == 0 and t['routed']:
+                    fired = True
+        return fired
+
+    def horizon():
+        h = INF
+        for t in timers:
+            if t['counter'] == 0:
+                m = t['start'] if t['mode'] == 1 else (0xFFFFFFFF if t['mode'] == 2 else INF)
+            else:
+                m = t['counter'] - 1
+            h = min(h, m)
+        return h
+
+    def skip(k):
+        if k == 0:
+            return
+        for t in timers:
+            if t['counter'] == 0:
+                if t['mode'] == 1:
+                    t['counter'] = t['start'] - (k - 1)
+                elif t['mode'] == 2:
+                    t['counter'] = 0xFFFFFFFF - (k - 1)
+            else:
+                t['counter'] -= k
+    cpu, ie, ip, latch = 'loop', case['ie'], 0, False
+    window = False
+    for k in slices:
+        idle = False
+        i = 0
+        while i < k:
+            if idle:
+                s_ = min(k - i - 1, horizon())
+                skip(s_)
+                i += s_
+                if i < k - 1:
+                    i += 1
+                    if tick():
+                        latch = True
+            if latch:
+                ip, latch = 1, False
+            if ie and ip:
+                ip, ie, cpu, idle = 0, 0, 'h1', False
+            if cpu == 'loop':
+                idle = True
+            elif cpu == 'h1':
+                cpu = 'h2'
+            else:
+                cpu, ie = 'loop', 1
+            if tick():
+                latch = True
+                if idle and i + 1 < k:
+                    window = True
+            i += 1
+    return window
+
+
 def job_case(case, tier, seed):
     G, ex, st0, ctx, rows = machine()
     ck = core.Check('C06', 'model_checking', tier, seed)
@@ -210,17 +291,7 @@ def job_case(case, tier, seed):
             ck.inconclusive.append('case %r slices %r: %s' % (case, comp, str(x)[:150]))
             continue
         ck.nstates += 1
-        # cycles (1-based, within the n-cycle budget) at which the timer raises its interrupt, from the concrete cells
-        fires = []
-        c_, s_c, md = case['counter'], case['start'], case['mode']
-        f_ = c_ if 1 <= c_ <= case['nmax'] else None
-        if c_ == 0 and md == 1 and 1 <= s_c <= case['nmax']:
-            f_ = 1 + s_c
-        while f_ is not None and f_ <= n:
-            fires.append(f_)
-            f_ = f_ + 1 + s_c if (md == 1 and 1 <= s_c <= case['nmax']) else None
-        starts = [0] + [sum(comp[:k]) for k in range(1, len(comp))]
-        window = int(any((f - b) in (1, 2) for f in fires for b in starts))
+        window = int(latency_window(case, [n]) or latency_window(case, comp))
         # two obligations per slicing: the peripheral side (timers, ICU request word - time must pass identically whatever
         # the CPU does) and the CPU side (registers, latches, stack). The listed idle-entry latency finding concerns the CPU
         # side only, so a peripheral deviation in the same input region is still reported.
